@@ -92,10 +92,10 @@ pub struct Execution<R> {
 /// One thread body: runs with the gate installed; must call `point()` (directly or through callbacks).
 pub type Body<R> = Arc<dyn Fn() -> R + Send + Sync>;
 
-const STEP_TIMEOUT: Duration = Duration::from_millis(1500);
+const STEP_TIMEOUT: Duration = Duration::from_millis(4000);
 /// a thread that does not reach its next point within this time is blocked on something the
 /// scheduler does not own (e.g. a lock held by a preempted thread)
-const BLOCK_TIMEOUT: Duration = Duration::from_millis(60);
+const BLOCK_TIMEOUT: Duration = Duration::from_millis(100);
 
 /// Run the program once: follow `prefix` (indices into each point's `enabled`), then choice 0.
 ///
@@ -134,7 +134,10 @@ pub fn run_once<R: Send + 'static + Default>(bodies: &[Body<R>], prefix: &[usize
     'outer: loop {
         let mut st = s.m.lock().unwrap_or_else(|e| e.into_inner());
         // 1. wait for the awaited thread to stop running (point reached or done), or declare it loose
-        let block_deadline = Instant::now() + if awaited.is_some() { BLOCK_TIMEOUT } else { STEP_TIMEOUT };
+        // the awaited thread first has to wake up and take its turn (can be slow on a loaded machine:
+        // generous limit); only from then on does "no point reached within BLOCK_TIMEOUT" mean blocked
+        let hard_deadline = Instant::now() + STEP_TIMEOUT;
+        let mut took_turn_at: Option<Instant> = None;
         loop {
             for t in 0..n {
                 if loose[t] && st.status[t] != 0 {
@@ -149,7 +152,14 @@ pub fn run_once<R: Send + 'static + Default>(bodies: &[Body<R>], prefix: &[usize
                 break;
             }
             let now = Instant::now();
-            if now >= block_deadline {
+            if awaited.is_some() && st.turn.is_none() && took_turn_at.is_none() {
+                took_turn_at = Some(now);
+            }
+            let deadline = match (awaited, took_turn_at) {
+                (Some(_), Some(t0)) => (t0 + BLOCK_TIMEOUT).min(hard_deadline),
+                _ => hard_deadline,
+            };
+            if now >= deadline {
                 match awaited {
                     Some(t) if st.turn.is_none() => {
                         loose[t] = true;
@@ -164,7 +174,7 @@ pub fn run_once<R: Send + 'static + Default>(bodies: &[Body<R>], prefix: &[usize
                     }
                 }
             }
-            let (g, _) = s.cv.wait_timeout(st, block_deadline - now).unwrap_or_else(|e| e.into_inner());
+            let (g, _) = s.cv.wait_timeout(st, deadline - now).unwrap_or_else(|e| e.into_inner());
             st = g;
         }
         // 2. decide
